@@ -2,9 +2,10 @@
   C16 — pkg/block/indexheader/lazy_binary_reader.go (+ reader_pool.go closeIdleReaders)
   An interleaving model of the lock logic of LazyBinaryReader.
     * every Reader method:   RLock; load(); use r.reader; (deferred) RUnlock
-    * load():                reader != nil ⇒ return; RUnlock; Lock; re-check; NewBinaryReader;
-                             r.reader = reader; (deferred) Unlock; RLock; reader == nil ⇒
-                             errUnloadedWhileLoading
+    * load():                reader != nil ⇒ return; readerErr != nil ⇒ return it; RUnlock; Lock;
+                             both tests again; NewBinaryReader; on failure r.readerErr = err and
+                             return; r.reader = reader; (deferred) Unlock; RLock; no error and
+                             reader == nil ⇒ errUnloadedWhileLoading
     * unloadIfIdleSince(ts): Lock; reader == nil ⇒ return; not idle ⇒ errNotIdle;
                              r.reader.Close(); r.reader = nil; (deferred) Unlock
     * isIdleSince:           RLock; read r.reader; RUnlock
@@ -13,7 +14,8 @@
   semantics, derived from the program counters of the threads: RLock is possible when no thread
   holds the write lock, Lock when no thread holds any lock.  A loaded BinaryReader is a
   *generation* number; `Close` puts it into `closed`.  Dereferencing a nil reader or using a
-  closed generation sets `bad`.
+  closed generation sets `bad`.  Which attempts of NewBinaryReader fail is decided by the
+  environment: `failAt` lists the attempt numbers (= value of the load counter) that fail.
 -/
 namespace Thanos.LazyReader
 
@@ -32,6 +34,9 @@ inductive PC where
   | wDone                      -- holds W: load body done, deferred Unlock pending
   | wantR2                     -- did Unlock, waits for RLock (holds nothing): unload may run here
   | recheck                    -- holds R: `if returnErr == nil && r.reader == nil`
+  | wDoneE                     -- as wDone, load body ended with an error (returnErr ≠ nil)
+  | wantR2E                    -- as wantR2, with the error
+  | recheckE                   -- as recheck, with the error: the method returns it
   | inUse (g : Nat)            -- holds R: inside r.reader.X() on generation g
   | consuming (g : Nat)        -- holds nothing: the caller reads an answer that points into generation g
   | uW                         -- unloader holds W
@@ -40,11 +45,11 @@ inductive PC where
   deriving Repr, DecidableEq
 
 def holdsR : PC → Bool
-  | .rl1 | .fast | .recheck | .inUse _ | .pR => true
+  | .rl1 | .fast | .recheck | .recheckE | .inUse _ | .pR => true
   | _ => false
 
 def holdsW : PC → Bool
-  | .w | .wDone | .uW | .uDone => true
+  | .w | .wDone | .wDoneE | .uW | .uDone => true
   | _ => false
 
 structure Thread where
@@ -55,6 +60,7 @@ structure Thread where
 inductive Event where
   | ok (g : Nat)               -- a Reader method answered from generation g
   | errUnloaded                -- errUnloadedWhileLoading
+  | loadErr                    -- the error of a failed NewBinaryReader (this call's or an earlier one's)
   | unloaded (g : Nat)
   | noop                       -- unload of an unloaded reader
   | notIdle
@@ -70,10 +76,16 @@ structure State where
   loads : Nat
   unloads : Nat
   log : List (Nat × Event)
+  readerErr : Bool := false    -- r.readerErr != nil
+  failAt : List Nat := []      -- attempts of NewBinaryReader that fail (environment)
+  loadFails : Nat := 0
   deriving Repr
 
 def init (kinds : List Kind) : State :=
-  ⟨none, 0, [], kinds.map fun k => ⟨k, .idle⟩, false, 0, 0, []⟩
+  ⟨none, 0, [], kinds.map fun k => ⟨k, .idle⟩, false, 0, 0, [], false, [], 0⟩
+
+/-- … in an environment where the listed load attempts fail -/
+def initF (kinds : List Kind) (failAt : List Nat) : State := { init kinds with failAt := failAt }
 
 /-- RLock succeeds: nobody holds the write lock -/
 def canR (ts : List Thread) : Bool := ts.all fun t => !holdsW t.pc
@@ -93,14 +105,24 @@ def step (recheckNil alias : Bool) (s : State) (i : Nat) : State :=
     let emit (e : Event) (s : State) : State := { s with log := s.log ++ [(i, e)] }
     match t.kind, t.pc with
     | .reader, .idle => if canR s.threads then goto .rl1 s else s
-    | .reader, .rl1 => if s.reader.isSome then goto .fast s else goto .wantW s
+    | .reader, .rl1 =>
+      if s.reader.isSome then goto .fast s
+      else if s.readerErr then goto .idle (emit .loadErr s)
+      else goto .wantW s
     | .reader, .wantW => if canW s.threads then goto .w s else s
     | .reader, .w =>
       match s.reader with
       | some _ => goto .wDone s
-      | none => goto .wDone { s with reader := some s.nextGen, nextGen := s.nextGen + 1, loads := s.loads + 1 }
+      | none =>
+        if s.readerErr then goto .wDoneE s
+        else if s.failAt.contains s.loads then
+          goto .wDoneE { s with readerErr := true, loads := s.loads + 1, loadFails := s.loadFails + 1 }
+        else goto .wDone { s with reader := some s.nextGen, nextGen := s.nextGen + 1, loads := s.loads + 1 }
     | .reader, .wDone => goto .wantR2 s
     | .reader, .wantR2 => if canR s.threads then goto .recheck s else s
+    | .reader, .wDoneE => goto .wantR2E s
+    | .reader, .wantR2E => if canR s.threads then goto .recheckE s else s
+    | .reader, .recheckE => goto .idle (emit .loadErr s)
     | .reader, .recheck =>
       if recheckNil && s.reader.isNone then goto .idle (emit .errUnloaded s) else goto .fast s
     | .reader, .fast =>
